@@ -83,3 +83,56 @@ func TestObjectAttributesPartMarkersAreHandedBack(t *testing.T) {
 		t.Errorf("part markers: got %+v, the endpoint said PartNumberMarker 2, NextPartNumberMarker 4", out.ObjectParts)
 	}
 }
+
+// Elements of the endpoint's answer that the gateway's answer has a place for were dropped on the way: the version id and
+// the delete-marker flag of GetObjectAttributes, StartAfter of a V2 listing, the source version id of UploadPartCopy.
+func TestAnswerElementsAreHandedBack(t *testing.T) {
+	ctx := context.Background()
+	bkt, key := "b", "k"
+
+	be := endpoint(t, func(w http.ResponseWriter, r *http.Request) {
+		w.Header().Set("Content-Type", "application/xml")
+		w.Header().Set("x-amz-version-id", "v7")
+		w.Header().Set("x-amz-delete-marker", "true")
+		fmt.Fprint(w, `<?xml version="1.0" encoding="UTF-8"?><GetObjectAttributesResponse><ETag>e</ETag><ObjectSize>10</ObjectSize></GetObjectAttributesResponse>`)
+	})
+	attr, err := be.GetObjectAttributes(ctx, &s3.GetObjectAttributesInput{Bucket: &bkt, Key: &key,
+		ObjectAttributes: []types.ObjectAttributes{types.ObjectAttributesEtag}})
+	if err != nil {
+		t.Fatal(err)
+	}
+	if attr.VersionId == nil || *attr.VersionId != "v7" {
+		t.Errorf("GetObjectAttributes: the endpoint answered version id v7, the gateway hands back %v", attr.VersionId)
+	}
+	if attr.DeleteMarker == nil || !*attr.DeleteMarker {
+		t.Errorf("GetObjectAttributes: the endpoint answered delete-marker true, the gateway hands back %v", attr.DeleteMarker)
+	}
+
+	be = endpoint(t, func(w http.ResponseWriter, r *http.Request) {
+		w.Header().Set("Content-Type", "application/xml")
+		fmt.Fprint(w, `<?xml version="1.0" encoding="UTF-8"?><ListBucketResult><Name>b</Name><Prefix></Prefix><StartAfter>abc</StartAfter><KeyCount>0</KeyCount><MaxKeys>1000</MaxKeys><IsTruncated>false</IsTruncated></ListBucketResult>`)
+	})
+	sa := "abc"
+	l, err := be.ListObjectsV2(ctx, &s3.ListObjectsV2Input{Bucket: &bkt, StartAfter: &sa})
+	if err != nil {
+		t.Fatal(err)
+	}
+	if l.StartAfter == nil || *l.StartAfter != "abc" {
+		t.Errorf("ListObjectsV2: the endpoint answered StartAfter abc, the gateway hands back %v", l.StartAfter)
+	}
+
+	be = endpoint(t, func(w http.ResponseWriter, r *http.Request) {
+		w.Header().Set("Content-Type", "application/xml")
+		w.Header().Set("x-amz-copy-source-version-id", "srcv1")
+		fmt.Fprint(w, `<?xml version="1.0" encoding="UTF-8"?><CopyPartResult><LastModified>2024-01-02T03:04:05Z</LastModified><ETag>"e"</ETag></CopyPartResult>`)
+	})
+	src, uid := "b/src?versionId=srcv1", "u1"
+	pn := int32(1)
+	cp, err := be.UploadPartCopy(ctx, &s3.UploadPartCopyInput{Bucket: &bkt, Key: &key, CopySource: &src, UploadId: &uid, PartNumber: &pn})
+	if err != nil {
+		t.Fatal(err)
+	}
+	if cp.CopySourceVersionId != "srcv1" {
+		t.Errorf("UploadPartCopy: the endpoint answered source version id srcv1, the gateway hands back %q", cp.CopySourceVersionId)
+	}
+}
